@@ -244,8 +244,8 @@ def run(ck):
            MaxLen=4, MaxRegs=2, AllHints="TRUE", **conf2)
         mc("confirmations, conflicting pair, chain<=5, 2 clients, depths 1-2", "mc_conf5",
            MaxLen=5, MaxRegs=2, AllHints="FALSE", MaxConfs=2, **conf2)
-        mc("confirmations, 3 txs (pair + independent), chain<=3, 2 clients", "mc_conf3tx",
-           MaxLen=3, MaxRegs=2, AllHints="FALSE", NOuts=2, Incl="Incl3", ConfTargets="{1, 2, 3}", SpendTargets="{}")
+        mc("confirmations, 3 txs (pair + independent), chain<=3, 2 clients, depths 1-2", "mc_conf3tx",
+           MaxLen=3, MaxRegs=2, AllHints="FALSE", MaxConfs=2, NOuts=2, Incl="Incl3", ConfTargets="{1, 2, 3}", SpendTargets="{}")
         mc("spends, two conflicting spenders, chain<=5, 3 clients, every hint", "mc_spend5",
            MaxLen=5, MaxRegs=3, AllHints="TRUE", **spend1)
         mc("spends, 2 outpoints x 2 spenders, chain<=4, 2 clients", "mc_spend2o",
@@ -273,11 +273,11 @@ def run(ck):
             r = ck.model_check(SPEC, "TxNotifierMC", "TxNotifierMC.cfg", "F10 repair shape (%s): tracked without subscriber" % nm,
                                name="mc_f10_repaired_" + nm, workers=8, timeout=2400,
                                constants=dict(Repaired="TRUE", OrphanRescan="TRUE", MaxLen=3 if nm == "conf" else 4,
-                                              MaxRegs=2, AllHints="FALSE", **u))
+                                              MaxRegs=2, AllHints="FALSE", MaxConfs=2, **u))
         ck.cov["f10_model"]["repaired_with_orphan_rescans"] = "holds"
 
     # ---- (b) generate, (c) replay on the real notifier, (d) validate
-    num, maxhist = (600, 24) if thorough else (100, 20)
+    num, maxhist = (500, 24) if thorough else (100, 20)
     files = ck.generate(SPEC, "TxNotifierGen", "TxNotifierGen.cfg", num, maxhist + 4,
                         constants=dict(MaxHist=maxhist, **R), name="gen", timeout=1500)
     sched = os.path.dirname(files[0])
@@ -298,7 +298,7 @@ def run(ck):
         validate_batches(ck, recs3, dict(R), "a TLC-generated behaviour with script-only requests", "val_gen_scriptonly")
 
     # ---- (e) free-running seeded driver: safety limit 4, 6 clients, 40 calls
-    runs = 1000 if thorough else 120
+    runs = 800 if thorough else 120
     fconsts = dict(Safety=4, MaxRegs=6, **R)
     trace2, recs2 = run_exec(ck, "TestVerifC14Free",
                              {"VERIF_RUNS": runs, "VERIF_STEPS": 40, "VERIF_NOUTS": 2, "VERIF_MAXREGS": 6, "VERIF_SAFETY": 4},
